@@ -142,13 +142,19 @@ def check_static(case: dict[str, Any], col: common.Collector) -> None:
         return
     sig = "static"
     has_dw = any(i["kind"] == "dw" for i in spec["inputs"])
-    variants: list[tuple[str, dict[str, Any]]] = [("v0", b.env(0))]
+    variants: list[tuple[str, dict[str, Any]]] = []
+    if not ps.integer_zero_divisor(spec, 0):
+        variants.append(("v0", b.env(0)))
     if not has_dw:
-        variants.append(("v1", b.env(1)))
+        if not ps.integer_zero_divisor(spec, 1):
+            variants.append(("v1", b.env(1)))
         for tag, val in (("allT", True), ("allF", False)):
             s2 = bool_override(spec, val)
-            if s2 is not None:
+            # (all-False booleans turn up as integer divisors: SIGFPE, not a memory matter)
+            if s2 is not None and not ps.integer_zero_divisor(s2, 0):
                 variants.append((tag, ps.PtBuild(s2).env(0)))
+            elif s2 is not None:
+                col.count("skipped_zero_divisor")
     tot = {"nonid": 0, "masked": 0}
     for k, (tag, env) in enumerate(variants):
         st = observe(bp, cp, env, col, {"spec": spec, "inputs": tag}, sig,
@@ -196,6 +202,9 @@ def check_symbolic(case: dict[str, Any], col: common.Collector) -> None:
     for gi, g in enumerate(grid):
         val = dict(zip(params, g))
         conc = symgen.instantiate(spec, val)
+        if ps.integer_zero_divisor(conc, 0):
+            col.count("skipped_zero_divisor")
+            continue
         iv = ps.input_values(conc, 0)
         env = {i["name"]: iv[i["id"]] for i in conc["inputs"]}
         knl = bp.program.default_entrypoint
